@@ -15,7 +15,8 @@
    a factory; Tree.get overwrites the tree name), true = repaired (`fix:` commits 3c078def and
    555dc342 in /repo; the correspondence run detects which form the working tree has).  Theorems
    quantified over va / vk hold for both forms; `routes_agree_nexus` and `dataset_blocks_concat`
-   are the FULL statements, proved for the repaired form; the `_partial` / `_refuted` pairs record
+   are the FULL statements, proved for the repaired form; vl (v_link_ucase) selects whether
+   _parse_link_statement upper-cases the keyword of a second LINK clause (all theorems hold for both); the `_partial` / `_refuted` pairs record
    what holds and what fails in the form as found.
    `hypotheses_satisfiable` and the Examples in Proofs/C13Examples.v show they are not vacuous. *)
 From Coq Require Import ZArith List Bool.
@@ -30,10 +31,10 @@ Theorem routes_agree_newick :
   forall (T : Type) (lower upper : str -> str)
          (parse_tree : mapper -> tz -> res (option T * mapper * tz))
          (set_label : T -> option str -> T) (add_comments : T -> list str -> T)
-         (va vk : bool) (ns0 : list str) (d : doc),
-  let L := treelist_read T lower upper parse_tree set_label add_comments va Newick in
-  let Y := yield_from_files T lower upper parse_tree set_label add_comments Newick in
-  let G := tree_get T lower upper parse_tree set_label add_comments va vk Newick in
+         (vl va vk : bool) (ns0 : list str) (d : doc),
+  let L := treelist_read T lower upper parse_tree set_label add_comments va vl Newick in
+  let Y := yield_from_files T lower upper parse_tree set_label add_comments vl Newick in
+  let G := tree_get T lower upper parse_tree set_label add_comments va vk vl Newick in
   (* the list route is a function of what the iterator does: same trees, same order, same
      namespace; it fails exactly when the iterator fails, with the same error, the iterator
      having handed out a prefix before *)
@@ -73,14 +74,14 @@ Print Assumptions newick_fuel_suffices.
 Theorem nexus_loops_agree :
   forall (T : Type) (lower upper : str -> str)
          (parse_tree : mapper -> tz -> res (option T * mapper * tz))
-         (set_label : T -> option str -> T) (add_comments : T -> list str -> T),
+         (set_label : T -> option str -> T) (add_comments : T -> list str -> T) (vl : bool),
   (forall m z ot m' z', parse_tree m z = Ok (ot, m', z') -> exists pre, z_toks z = pre ++ z_toks z') ->
   (forall s, upper (upper s) = upper s) ->
   forall (nc : nscfg) (tlf : tl_factory) (ns0 : list str) (d : doc),
   (forall t, In t (fst d) -> is_sets_kw (Some (upper (t_text t))) = false) ->
-  let Y := y_items_from_stream T lower upper parse_tree set_label add_comments nc false
+  let Y := y_items_from_stream T lower upper parse_tree set_label add_comments vl nc false
                                (doc_fuel d) (core_init nc ns0 d) (regs_init nc) in
-  let R := nexus_read T lower upper parse_tree set_label add_comments (mkCfg nc tlf) ns0 d in
+  let R := nexus_read T lower upper parse_tree set_label add_comments vl (mkCfg nc tlf) ns0 d in
   match snd Y with
   | Ok (k', g') =>
     exists s, R = Ok s /\ r_k s = k' /\ r_g s = g'
@@ -96,20 +97,21 @@ Print Assumptions nexus_loops_agree.
 
 (* neither implementation runs out of the model's fuel (number of tokens + 4) when the statement
    parser consumes a prefix and does not itself run out: every loop iteration fetches a token or
-   sees the end of the stream, after which every loop guard is false.  (The non-terminating
-   `while token != ';'` of _parse_link_statement is modelled as the explicit result Hang.) *)
+   sees the end of the stream, after which every loop guard is false.  No loop of the modelled
+   code is non-terminating any more (_parse_link_statement skips unknown LINK targets with
+   require_next_token_ucase since fix commit 1c368978), so no `Hang` result exists in the model. *)
 Theorem nexus_fuel_suffices :
   forall (T : Type) (lower upper : str -> str)
          (parse_tree : mapper -> tz -> res (option T * mapper * tz))
-         (set_label : T -> option str -> T) (add_comments : T -> list str -> T),
+         (set_label : T -> option str -> T) (add_comments : T -> list str -> T) (vl : bool),
   (forall m z ot m' z', parse_tree m z = Ok (ot, m', z') -> exists pre, z_toks z = pre ++ z_toks z') ->
   (forall m z, parse_tree m z <> OutOfFuel) ->
   forall (nc : nscfg) (ns0 : list str) (d : doc),
-  snd (y_items_from_stream T lower upper parse_tree set_label add_comments nc false
+  snd (y_items_from_stream T lower upper parse_tree set_label add_comments vl nc false
                            (doc_fuel d) (core_init nc ns0 d) (regs_init nc)) <> OutOfFuel
   /\ ((forall s, upper (upper s) = upper s) ->
       (forall t, In t (fst d) -> is_sets_kw (Some (upper (t_text t))) = false) ->
-      forall tlf, nexus_read T lower upper parse_tree set_label add_comments (mkCfg nc tlf) ns0 d <> OutOfFuel).
+      forall tlf, nexus_read T lower upper parse_tree set_label add_comments vl (mkCfg nc tlf) ns0 d <> OutOfFuel).
 Proof. exact S_nexus_fuel. Qed.
 Print Assumptions nexus_fuel_suffices.
 
@@ -121,13 +123,13 @@ Print Assumptions nexus_fuel_suffices.
 Theorem routes_agree_nexus :
   forall (T : Type) (lower upper : str -> str)
          (parse_tree : mapper -> tz -> res (option T * mapper * tz))
-         (set_label : T -> option str -> T) (add_comments : T -> list str -> T),
+         (set_label : T -> option str -> T) (add_comments : T -> list str -> T) (vl : bool),
   (forall m z ot m' z', parse_tree m z = Ok (ot, m', z') -> exists pre, z_toks z = pre ++ z_toks z') ->
   (forall s, upper (upper s) = upper s) ->
   forall (ns0 : list str) (d : doc),
   (forall t, In t (fst d) -> is_sets_kw (Some (upper (t_text t))) = false) ->
-  let Y := yield_from_files T lower upper parse_tree set_label add_comments Nexus ns0 d in
-  treelist_read T lower upper parse_tree set_label add_comments true Nexus ns0 d
+  let Y := yield_from_files T lower upper parse_tree set_label add_comments vl Nexus ns0 d in
+  treelist_read T lower upper parse_tree set_label add_comments true vl Nexus ns0 d
   = match snd Y with Ok ns => Ok (fst Y, ns) | Err e => Err e | OutOfFuel => OutOfFuel end.
 Proof. exact routes_agree_nexus_repaired_l. Qed.
 Print Assumptions routes_agree_nexus.
@@ -138,18 +140,18 @@ Print Assumptions routes_agree_nexus.
 Theorem dataset_blocks_concat :
   forall (T : Type) (lower upper : str -> str)
          (parse_tree : mapper -> tz -> res (option T * mapper * tz))
-         (set_label : T -> option str -> T) (add_comments : T -> list str -> T),
+         (set_label : T -> option str -> T) (add_comments : T -> list str -> T) (vl : bool),
   (forall m z ot m' z', parse_tree m z = Ok (ot, m', z') -> exists pre, z_toks z = pre ++ z_toks z') ->
   (forall s, upper (upper s) = upper s) ->
   forall (d : doc),
   (forall t, In t (fst d) -> is_sets_kw (Some (upper (t_text t))) = false) ->
-  match read_blocks T lower upper parse_tree set_label add_comments Nexus cfg_yield [] d with
-  | Ok (blocks, ns) => treelist_get T lower upper parse_tree set_label add_comments true Nexus d = Ok (concat blocks, ns)
-  | Err e => treelist_get T lower upper parse_tree set_label add_comments true Nexus d = Err e
-  | OutOfFuel => treelist_get T lower upper parse_tree set_label add_comments true Nexus d = OutOfFuel
+  match read_blocks T lower upper parse_tree set_label add_comments vl Nexus cfg_yield [] d with
+  | Ok (blocks, ns) => treelist_get T lower upper parse_tree set_label add_comments true vl Nexus d = Ok (concat blocks, ns)
+  | Err e => treelist_get T lower upper parse_tree set_label add_comments true vl Nexus d = Err e
+  | OutOfFuel => treelist_get T lower upper parse_tree set_label add_comments true vl Nexus d = OutOfFuel
   end
-  /\ dataset_get T lower upper parse_tree set_label add_comments Nexus true d
-     = (do r <- read_blocks T lower upper parse_tree set_label add_comments Nexus cfg_yield [] d ;; Ok (fst r)).
+  /\ dataset_get T lower upper parse_tree set_label add_comments vl Nexus true d
+     = (do r <- read_blocks T lower upper parse_tree set_label add_comments vl Nexus cfg_yield [] d ;; Ok (fst r)).
 Proof. exact dataset_blocks_concat_repaired_l. Qed.
 Print Assumptions dataset_blocks_concat.
 
@@ -163,14 +165,14 @@ Print Assumptions dataset_blocks_concat.
 Theorem routes_agree_nexus_partial :
   forall (T : Type) (lower upper : str -> str)
          (parse_tree : mapper -> tz -> res (option T * mapper * tz))
-         (set_label : T -> option str -> T) (add_comments : T -> list str -> T) (va : bool),
+         (set_label : T -> option str -> T) (add_comments : T -> list str -> T) (vl va : bool),
   (forall m z ot m' z', parse_tree m z = Ok (ot, m', z') -> exists pre, z_toks z = pre ++ z_toks z') ->
   (forall s, upper (upper s) = upper s) ->
   forall (ns0 : list str) (d : doc) ts ns,
   (forall t, In t (fst d) -> is_sets_kw (Some (upper (t_text t))) = false) ->
-  treelist_read T lower upper parse_tree set_label add_comments va Nexus ns0 d = Ok (ts, ns) ->
-  yield_from_files T lower upper parse_tree set_label add_comments Nexus ns0 d = (ts, Ok ns)
-  /\ (forall k, treearray_read T lower upper parse_tree set_label add_comments Nexus k ns0 d
+  treelist_read T lower upper parse_tree set_label add_comments va vl Nexus ns0 d = Ok (ts, ns) ->
+  yield_from_files T lower upper parse_tree set_label add_comments vl Nexus ns0 d = (ts, Ok ns)
+  /\ (forall k, treearray_read T lower upper parse_tree set_label add_comments vl Nexus k ns0 d
                 = (skipn (Z.to_nat k) ts, Ok ns)).
 Proof. exact S_routes_agree_nexus. Qed.
 Print Assumptions routes_agree_nexus_partial.
@@ -182,13 +184,13 @@ Theorem routes_agree_nexus_refuted :
   exists d : doc,
     (forall t, In t (fst d) -> is_sets_kw (Some (upper_with [] (t_text t))) = false)
     /\ (exists ns, snd (yield_from_files sktree (lower_with []) (upper_with []) (sk_parse_tree (lower_with []))
-                                         sk_set_label sk_add_comments Nexus [] d) = Ok ns)
+                                         sk_set_label sk_add_comments false Nexus [] d) = Ok ns)
     /\ length (fst (yield_from_files sktree (lower_with []) (upper_with []) (sk_parse_tree (lower_with []))
-                                     sk_set_label sk_add_comments Nexus [] d)) = 2%nat
+                                     sk_set_label sk_add_comments false Nexus [] d)) = 2%nat
     /\ treelist_get sktree (lower_with []) (upper_with []) (sk_parse_tree (lower_with []))
-                    sk_set_label sk_add_comments false Nexus d = Err ParseErr
+                    sk_set_label sk_add_comments false false Nexus d = Err ParseErr
     /\ is_ok (dataset_get sktree (lower_with []) (upper_with []) (sk_parse_tree (lower_with []))
-                          sk_set_label sk_add_comments Nexus false d) = true.
+                          sk_set_label sk_add_comments false Nexus false d) = true.
 Proof. exact attached_not_conversely_x. Qed.
 Print Assumptions routes_agree_nexus_refuted.
 
@@ -200,22 +202,22 @@ Print Assumptions routes_agree_nexus_refuted.
 Theorem dataset_blocks_concat_partial :
   forall (T : Type) (lower upper : str -> str)
          (parse_tree : mapper -> tz -> res (option T * mapper * tz))
-         (set_label : T -> option str -> T) (add_comments : T -> list str -> T) (va : bool),
+         (set_label : T -> option str -> T) (add_comments : T -> list str -> T) (vl va : bool),
   (forall m z ot m' z', parse_tree m z = Ok (ot, m', z') -> exists pre, z_toks z = pre ++ z_toks z') ->
   (forall s, upper (upper s) = upper s) ->
   forall (d : doc),
   (forall t, In t (fst d) -> is_sets_kw (Some (upper (t_text t))) = false) ->
   (* the per-collection lists Tree.get / TreeList.get(collection_offset=..) parse and the single
      list of TreeList.get: exact, errors included *)
-  match read_blocks T lower upper parse_tree set_label add_comments Nexus (cfg_blocks va) [] d with
-  | Ok (blocks, ns) => treelist_get T lower upper parse_tree set_label add_comments va Nexus d = Ok (concat blocks, ns)
-  | Err e => treelist_get T lower upper parse_tree set_label add_comments va Nexus d = Err e
-  | OutOfFuel => treelist_get T lower upper parse_tree set_label add_comments va Nexus d = OutOfFuel
+  match read_blocks T lower upper parse_tree set_label add_comments vl Nexus (cfg_blocks va) [] d with
+  | Ok (blocks, ns) => treelist_get T lower upper parse_tree set_label add_comments va vl Nexus d = Ok (concat blocks, ns)
+  | Err e => treelist_get T lower upper parse_tree set_label add_comments va vl Nexus d = Err e
+  | OutOfFuel => treelist_get T lower upper parse_tree set_label add_comments va vl Nexus d = OutOfFuel
   end
   /\
   (* DataSet.get(taxon_namespace=ns) delivers the same trees, grouped, whenever TreeList.get succeeds *)
-  (forall ts ns, treelist_get T lower upper parse_tree set_label add_comments va Nexus d = Ok (ts, ns) ->
-     exists blocks, dataset_get T lower upper parse_tree set_label add_comments Nexus true d = Ok blocks
+  (forall ts ns, treelist_get T lower upper parse_tree set_label add_comments va vl Nexus d = Ok (ts, ns) ->
+     exists blocks, dataset_get T lower upper parse_tree set_label add_comments vl Nexus true d = Ok blocks
                     /\ concat blocks = ts).
 Proof. exact S_dataset_blocks_concat. Qed.
 Print Assumptions dataset_blocks_concat_partial.
@@ -226,23 +228,23 @@ Print Assumptions dataset_blocks_concat_partial.
 Theorem offset_selection :
   forall (T : Type) (lower upper : str -> str)
          (parse_tree : mapper -> tz -> res (option T * mapper * tz))
-         (set_label : T -> option str -> T) (add_comments : T -> list str -> T) (va vk : bool),
+         (set_label : T -> option str -> T) (add_comments : T -> list str -> T) (vl va vk : bool),
   (forall m z ot m' z', parse_tree m z = Ok (ot, m', z') -> exists pre, z_toks z = pre ++ z_toks z') ->
   (forall s, upper (upper s) = upper s) ->
   forall (d : doc),
   (forall t, In t (fst d) -> is_sets_kw (Some (upper (t_text t))) = false) ->
   forall blocks ns,
-  read_blocks T lower upper parse_tree set_label add_comments Nexus (cfg_blocks va) [] d = Ok (blocks, ns) ->
-  treelist_get T lower upper parse_tree set_label add_comments va Nexus d = Ok (concat blocks, ns)
-  /\ (forall c k, tree_get T lower upper parse_tree set_label add_comments va vk Nexus c k d
+  read_blocks T lower upper parse_tree set_label add_comments vl Nexus (cfg_blocks va) [] d = Ok (blocks, ns) ->
+  treelist_get T lower upper parse_tree set_label add_comments va vl Nexus d = Ok (concat blocks, ns)
+  /\ (forall c k, tree_get T lower upper parse_tree set_label add_comments va vk vl Nexus c k d
                   = select_tree T set_label vk blocks (match c with Some c => c | None => 0 end)
                                 (match k with Some k => k | None => 0 end))
   /\ (forall (c k : nat) b t, nth_error blocks c = Some b -> nth_error b k = Some t ->
-        tree_get T lower upper parse_tree set_label add_comments va vk Nexus (Some (Z.of_nat c)) (Some (Z.of_nat k)) d
+        tree_get T lower upper parse_tree set_label add_comments va vk vl Nexus (Some (Z.of_nat c)) (Some (Z.of_nat k)) d
         = Ok (got_label T set_label vk t)
         /\ nth_error (concat blocks) (length (concat (firstn c blocks)) + k) = Some t)
   /\ (forall c k, (c <> None \/ k <> None) ->
-        treelist_get_off T lower upper parse_tree set_label add_comments va Nexus c k d
+        treelist_get_off T lower upper parse_tree set_label add_comments va vl Nexus c k d
         = select_offsets T blocks (match c with Some c => c | None => 0 end) k).
 Proof. exact S_offset_selection. Qed.
 Print Assumptions offset_selection.
@@ -271,9 +273,9 @@ Print Assumptions offset_selection_cases.
 Theorem tree_get_label_refuted :
   exists (d : doc) t t',
     (exists ns, treelist_get sktree (lower_with []) (upper_with []) (sk_parse_tree (lower_with []))
-                             sk_set_label sk_add_comments false Nexus d = Ok ([t; t'], ns))
+                             sk_set_label sk_add_comments false false Nexus d = Ok ([t; t'], ns))
     /\ (exists u, tree_get sktree (lower_with []) (upper_with []) (sk_parse_tree (lower_with []))
-                           sk_set_label sk_add_comments false false Nexus None None d = Ok u
+                           sk_set_label sk_add_comments false false false Nexus None None d = Ok u
                   /\ sk_label t = Some (Some (q "foo")) /\ sk_label u = Some None
                   /\ sk_items u = sk_items t).
 Proof. exact tree_get_label_refuted_l. Qed.
@@ -306,22 +308,22 @@ Print Assumptions shared_namespace_same_taxa.
 Theorem shared_namespace_threading :
   forall (T : Type) (lower upper : str -> str)
          (parse_tree : mapper -> tz -> res (option T * mapper * tz))
-         (set_label : T -> option str -> T) (add_comments : T -> list str -> T) (va : bool),
+         (set_label : T -> option str -> T) (add_comments : T -> list str -> T) (va vl : bool),
   (forall sch ns0 d,
-     treelist_read_twice T lower upper parse_tree set_label add_comments va sch ns0 d =
-     match treelist_read T lower upper parse_tree set_label add_comments va sch ns0 d with
-     | Ok (_, ns1) => treelist_read T lower upper parse_tree set_label add_comments va sch ns1 d
+     treelist_read_twice T lower upper parse_tree set_label add_comments va vl sch ns0 d =
+     match treelist_read T lower upper parse_tree set_label add_comments va vl sch ns0 d with
+     | Ok (_, ns1) => treelist_read T lower upper parse_tree set_label add_comments va vl sch ns1 d
      | Err e => Err e
      | OutOfFuel => OutOfFuel
      end)
   /\ ((forall m z ot m' z', parse_tree m z = Ok (ot, m', z') -> exists r, m_ns m' = m_ns m ++ r) ->
       forall ns0 d ts ns1,
-      treelist_read T lower upper parse_tree set_label add_comments va Newick ns0 d = Ok (ts, ns1) ->
+      treelist_read T lower upper parse_tree set_label add_comments va vl Newick ns0 d = Ok (ts, ns1) ->
       exists r, ns1 = ns0 ++ r).
 Proof.
-  exact (fun T lower upper parse_tree set_label add_comments va =>
-           conj (S_read_twice T lower upper parse_tree set_label add_comments va)
-                (S_newick_grows T lower upper parse_tree set_label add_comments va)).
+  exact (fun T lower upper parse_tree set_label add_comments va vl =>
+           conj (S_read_twice T lower upper parse_tree set_label add_comments va vl)
+                (S_newick_grows T lower upper parse_tree set_label add_comments va vl)).
 Qed.
 Print Assumptions shared_namespace_threading.
 
